@@ -40,6 +40,31 @@ pub struct Case {
     pub order_rot: u8,
     /// leave the last named input unsupplied (stays zero)
     pub omit_last: bool,
+    /// size ladder: a large tail appended to the graph, expanded deterministically from these numbers
+    #[serde(default)]
+    pub big: Option<Big>,
+}
+
+/// Large-graph extension of a case ("any size, any declared input layout"): `nodes` further nodes
+/// whose operands reach back near, far and anywhere (so node references cross the 1-, 2- and 3-byte
+/// varint boundaries of the stored form), `outputs` further output signals, and one further named
+/// input of `in_len` values placed `gap` slots after the others (offsets and lengths beyond 127 /
+/// 16383). The expansion is a pure function of these numbers (splitmix64 over `seed`).
+#[derive(Clone, Debug, Serialize, Deserialize)]
+pub struct Big {
+    pub nodes: u32,
+    pub outputs: u32,
+    pub in_len: u32,
+    pub gap: u32,
+    pub seed: u64,
+}
+
+fn splitmix(x: &mut u64) -> u64 {
+    *x = x.wrapping_add(0x9E37_79B9_7F4A_7C15);
+    let mut z = *x;
+    z = (z ^ (z >> 30)).wrapping_mul(0xBF58_476D_1CE4_E5B9);
+    z = (z ^ (z >> 27)).wrapping_mul(0x94D0_49BB_1331_11EB);
+    z ^ (z >> 31)
 }
 
 struct Built {
@@ -74,6 +99,21 @@ fn build(case: &Case) -> Built {
         named.push((name, vals));
         offset += len;
     }
+    if let Some(bg) = &case.big {
+        if bg.in_len > 0 {
+            offset += bg.gap as usize;
+            let name = "big".to_string();
+            info.insert(name.clone(), (offset, bg.in_len as usize));
+            let vals: Vec<Fx> = (0..bg.in_len as usize)
+                .map(|i| {
+                    let v = case.values.get(i % nv).copied().unwrap_or(Fx::from_u64(0));
+                    Fx(v.0 + ark_bn254::Fr::from(i as u64))
+                })
+                .collect();
+            named.push((name, vals));
+            offset += bg.in_len as usize;
+        }
+    }
     let size = offset; // input buffer size (index 0 is the constant 1)
     let mut buffer = vec![BigUint::from(0u32); size];
     buffer[0] = BigUint::from(1u32);
@@ -87,7 +127,7 @@ fn build(case: &Case) -> Built {
     named.truncate(supplied);
     // nodes: leading block of inputs 0..leading, then the body
     let mut nodes: Vec<Node> = vec![];
-    let leading = (case.leading_inputs as usize).min(size);
+    let leading = if case.leading_inputs == 255 { size } else { (case.leading_inputs as usize).min(size) };
     for i in 0..leading {
         nodes.push(Node::Input(i));
     }
@@ -117,7 +157,44 @@ fn build(case: &Case) -> Built {
     if nodes.is_empty() {
         nodes.push(Node::MontConstant(ark_bn254::Fr::from(1u64)));
     }
-    let outputs: Vec<usize> = case.outputs.iter().map(|s| pick_index(*s, nodes.len())).collect();
+    let mut big_outputs: Vec<usize> = vec![];
+    if let Some(bg) = &case.big {
+        let mut st = bg.seed;
+        let ops: Vec<ROp> = ALL_OPS.iter().copied().filter(|o| *o != ROp::Pow).collect();
+        for _ in 0..bg.nodes {
+            let n = nodes.len();
+            let r = splitmix(&mut st);
+            // operand positions: near (last 8), far (first 1/16 of the graph), anywhere
+            let mut pos = |st: &mut u64| -> usize {
+                let q = splitmix(st);
+                match q & 3 {
+                    0 | 1 => n - 1 - ((q >> 8) as usize % n.min(8)),
+                    2 => (q >> 8) as usize % (n / 16 + 1),
+                    _ => (q >> 8) as usize % n,
+                }
+            };
+            let node = match r % 16 {
+                0 => Node::Input((r >> 8) as usize % size),
+                1 => Node::MontConstant(ark_bn254::Fr::from(r >> 8)),
+                2 => Node::UnoOp(UnoOperation::Neg, pos(&mut st)),
+                3 => Node::TresOp(TresOperation::TernCond, pos(&mut st), pos(&mut st), pos(&mut st)),
+                // half of the binary nodes are Mul / Add / Sub so that values stay varied
+                4..=9 => Node::Op(to_impl_op([ROp::Mul, ROp::Add, ROp::Sub][(r >> 8) as usize % 3]), pos(&mut st), pos(&mut st)),
+                _ => Node::Op(to_impl_op(ops[(r >> 8) as usize % ops.len()]), pos(&mut st), pos(&mut st)),
+            };
+            if matches!(node, Node::Input(_)) {
+                scattered = true;
+            }
+            nodes.push(node);
+        }
+        let n = nodes.len();
+        for k in 0..bg.outputs as usize {
+            // the last node, then positions spread over the whole graph
+            big_outputs.push(if k == 0 { n - 1 } else { (splitmix(&mut st) as usize) % n });
+        }
+    }
+    let mut outputs: Vec<usize> = case.outputs.iter().map(|s| pick_index(*s, nodes.len())).collect();
+    outputs.extend(big_outputs);
     // does the leading block (what get_inputs_size looks at) cover the whole declared buffer?
     let leading_max = nodes.iter().take_while(|x| matches!(x, Node::Input(_))).filter_map(|x| if let Node::Input(i) = x { Some(*i + 1) } else { None }).max().unwrap_or(1);
     let _ = max_leading;
@@ -162,7 +239,7 @@ impl Property for C20 {
         "C20"
     }
     fn rule(&self) -> String {
-        "random DAGs of 1..400 nodes over {Input, MontConstant, every binary operator except Pow, Neg, TernCond} with backward references only, 0..6 named inputs of length 1..5 at non-overlapping offsets (with gaps), a leading Input block as circom-witnesscalc emits plus optionally scattered Input nodes, arbitrary output lists (repeats allowed), boundary-weighted input values, named inputs supplied in a generated order (optionally one omitted); \
+        "random DAGs of 1..400 nodes (one case in 150 with a tail of up to 3000 further nodes, 400 further outputs and a further named input of up to 400 values up to 300 slots away; fixed size ladder: node counts, output counts, input lengths and input offsets at 2^k-1 / 2^k / 2^k+1 for k = 7, 8, 14, 16, and 1000, 5844, 40000, 100000; 2^21 in the thorough tier) over {Input, MontConstant, every binary operator except Pow, Neg, TernCond} with backward references only, 0..6 named inputs of length 1..5 at non-overlapping offsets (with gaps), a leading Input block as circom-witnesscalc emits plus optionally scattered Input nodes, arbitrary output lists (repeats allowed), boundary-weighted input values, named inputs supplied in a generated order (optionally one omitted); \
          graph::evaluate and calc_witness(serialised graph) must equal a direct BigUint interpretation with the circom operator oracle; deserialize(serialize(g)) must equal g (nodes, signals, input map) and evaluate identically; one case in eight first hands calc_witness a damaged copy of the container (failure contained) and then the intact one. \
          non-trivial = graph with a comparison/shift/bitwise/division/ternary node feeding an output and >= 2 named inputs; distinct by case content".into()
     }
@@ -183,8 +260,13 @@ impl Property for C20 {
             proptest::collection::vec(gens::fx(), 1..12),
             any::<u8>(),
             prop_oneof![5 => Just(false), 1 => Just(true)],
+            // one case in 150 carries a mid-size tail (the large sizes are the fixed ladder)
+            prop_oneof![
+                149 => Just(None),
+                1 => (0u32..3000, 0u32..400, 0u32..400, 0u32..300, any::<u64>()).prop_map(|(nodes, outputs, in_len, gap, seed)| Some(Big { nodes, outputs, in_len, gap, seed })),
+            ],
         )
-            .prop_map(|(input_lens, gaps, leading_inputs, body, outputs, values, order_rot, omit_last)| Case { input_lens, gaps, leading_inputs, body, outputs, values, order_rot, omit_last })
+            .prop_map(|(input_lens, gaps, leading_inputs, body, outputs, values, order_rot, omit_last, big)| Case { input_lens, gaps, leading_inputs, body, outputs, values, order_rot, omit_last, big })
             .boxed()
     }
     fn check(&self, ctx: &Ctx, case: &Case) -> Outcome {
@@ -198,7 +280,12 @@ impl Property for C20 {
                 return o;
             }
         }
-        o.label(format!("nodes/{}", match b.nodes.len() { 0..=9 => "<10", 10..=49 => "10..49", _ => ">=50" }));
+        o.label(format!("nodes/{}", match b.nodes.len() { 0..=9 => "<10", 10..=49 => "10..49", 50..=999 => "50..999", 1000..=16383 => "1000..16383", _ => ">=16384" }));
+        if let Some(bg) = &case.big {
+            o.label("big-tail");
+            o.label(format!("big-input-len/{}", match bg.in_len { 0 => "none", 1..=127 => "<128", 128..=16383 => "128..16383", _ => ">=16384" }));
+            o.label(format!("outputs/{}", match b.outputs.len() { 0..=127 => "<128", 128..=16383 => "128..16383", _ => ">=16384" }));
+        }
         // reachability of a non-arithmetic node from an output
         let mut used = vec![false; b.nodes.len()];
         for &x in &b.outputs {
@@ -385,8 +472,53 @@ impl Property for C20 {
         }
         o
     }
+    fn fixed_part(&self, ctx: &Ctx, stats: &mut Stats) -> Option<(String, Option<Case>)> {
+        // size ladder: node counts, output counts, input lengths and offsets one below / at / one above
+        // the sizes at which the stored form changes shape (varint widths 2^7, 2^14, 2^21; 2^8, 2^16 for
+        // anything kept in a narrow integer), plus the size of the bundled RLN graph's order of magnitude
+        let mut sizes: Vec<u32> = vec![];
+        for k in [7u32, 8, 14, 16] {
+            sizes.extend([(1 << k) - 1, 1 << k, (1 << k) + 1]);
+        }
+        sizes.extend([1000, 5844, 40_000, 100_000]);
+        if ctx.tier == Tier::Thorough {
+            sizes.extend([(1 << 21) - 1, 1 << 21, (1 << 21) + 1]);
+        }
+        let small = |k: usize| (k as u32 % 5) * 3;
+        let mut fixed: Vec<Case> = vec![];
+        for (k, n) in sizes.iter().copied().enumerate() {
+            let base = Case {
+                input_lens: vec![2, 0, 4],
+                gaps: vec![0, 1, 2],
+                leading_inputs: if k % 3 == 2 { 3 } else { 255 },
+                body: vec![GNode::Const(Fx::from_u64(5)), GNode::Op(ROp::Add, 0, 65535)],
+                outputs: vec![0, 65535],
+                values: vec![Fx::from_u64(3), Fx::from_big(&(crate::models::field::p() - 2u32)), Fx::from_u64(1 << 40)],
+                order_rot: k as u8,
+                omit_last: false,
+                big: None,
+            };
+            // (a) many nodes, few outputs / inputs
+            fixed.push(Case { big: Some(Big { nodes: n, outputs: small(k), in_len: small(k + 1), gap: small(k + 2), seed: 1000 + k as u64 }), ..base.clone() });
+            if n <= 100_000 {
+                // (b) many output signals over a moderate graph; (c) a long named input; (d) a named input far out
+                fixed.push(Case { big: Some(Big { nodes: 300 + small(k), outputs: n, in_len: small(k), gap: 0, seed: 2000 + k as u64 }), ..base.clone() });
+                fixed.push(Case { big: Some(Big { nodes: 300 + small(k), outputs: 7, in_len: n, gap: small(k), seed: 3000 + k as u64 }), ..base.clone() });
+                fixed.push(Case { big: Some(Big { nodes: 300 + small(k), outputs: 7, in_len: 1 + small(k), gap: n, seed: 4000 + k as u64 }), ..base.clone() });
+            }
+        }
+        for c in &fixed {
+            let mut out = self.check(ctx, c);
+            out.label("fixed-size-ladder");
+            stats.record(&out, case_hash(c), || self.sample_view(c));
+            if let Some(m) = out.fail {
+                return Some((m, Some(c.clone())));
+            }
+        }
+        None
+    }
     fn sample_view(&self, case: &Case) -> serde_json::Value {
         let b = build(case);
-        serde_json::json!({"nodes": b.nodes.len(), "first_nodes": format!("{:?}", &b.nodes[..b.nodes.len().min(6)]), "outputs": b.outputs, "inputs": b.info.iter().collect::<BTreeMap<_,_>>(), "scattered": b.scattered})
+        serde_json::json!({"nodes": b.nodes.len(), "first_nodes": format!("{:?}", &b.nodes[..b.nodes.len().min(6)]), "outputs_len": b.outputs.len(), "first_outputs": &b.outputs[..b.outputs.len().min(12)], "inputs": b.info.iter().collect::<BTreeMap<_,_>>(), "buffer_len": b.buffer.len(), "scattered": b.scattered, "big": case.big})
     }
 }
